@@ -19,6 +19,20 @@ def feature_choices(rng):
 
 
 def rand_secret(rng):
+    # now and then a secret whose bytes could be mistaken for something else: all zero, all ones, a fill pattern,
+    # zero but for one end (the rest of the time: uniformly random)
+    k = rng.below(64)
+    if k == 0:
+        return bytes(19)
+    if k == 1:
+        return bytes([255] * 18 + [63])
+    if k == 2:
+        v = rng.choice([0xA5, 0x5A, 0xCC, 0xEE, 0x01, 0x80])
+        return bytes([v] * 18 + [v & 63])
+    if k == 3:
+        b = bytearray(19)
+        b[rng.choice([0, 18])] = 1 + rng.below(63)
+        return bytes(b)
     b = bytearray(rng.bytes(19))
     b[18] &= 63
     return bytes(b)
@@ -494,6 +508,26 @@ def c05(ck):
     ck.model("Theorems.tla", "Theorems_coinpairs.cfg")
     if not quick:
         ck.model("Theorems.tla", "Theorems_coinpairsfull.cfg", timeout=3000)
+    # a phrase made for coin A is a checksum error for coin B whatever else is wrong with it for this library
+    # configuration: a seed whose feature is not enabled any more, an allocator that would refuse
+    for n in range(12 if quick else 120):
+        s = Script()
+        f = rng.choice([1, 2, 4, 5, 3, 6, 7, 17, 21])
+        s.make_seed(0, rand_secret(rng), rng.below(1024), f, rng, enable=7)
+        lid, a = rng.choice(LANG_IDS), rng.choice(COINS_BOUNDARY + [rng.below(2048)])
+        s.add("encode", 0, lid, a, 1)
+        s.add("enable", rng.choice([0, 7 & ~f, (7 & ~f) | 8]))
+        for b in [a ^ 1, a ^ 1024, (a + 1) % 2048, rng.below(2048), a]:
+            s.add("decodex", 1, b, lid, 1)
+            s.add("free", 1)
+            s.add("decode", 1, b, 1)
+            s.add("free", 1)
+        s.add("env", "fail=1")
+        for b in [a ^ 2, a]:
+            s.add("decodex", 1, b, lid, 1)
+            s.add("free", 1)
+        s.add("env", "fail=0")
+        ck.add(Exec("disabled-feature-%d" % n, s.lines))
     step = 8 if quick else 1
     for lid in (["en", "ko"] if quick else LANG_IDS):
         # row: one A, every B
@@ -1075,6 +1109,24 @@ def c12(ck):
         s.add("isenc", 0)
         ck.add(Exec("spelling-%d" % i, s.lines))
     ck.validate()
+    # the password, its normalised form and the mask are the call's own: threads encrypting their own seeds with their
+    # own passwords at the same time, with the library's static data write-protected (and under ThreadSanitizer)
+    scripts = []
+    for t in range(3 if quick else 12):
+        s = Script()
+        for k in range(5 if quick else 40):
+            s.add("env", "rand=" + hx(rand_secret(rng)), "time=%d" % (EPOCH + rng.below(1024) * STEP + 9), "mask=" + hx(rng.bytes(32)))
+            s.add("create", 0, 0)
+            pw = s.string(rng.choice(pws[:40]))
+            s.add("crypt", 0, pw)
+            s.add("store", 0, 1)
+            s.add("crypt", 0, pw)
+            s.add("store", 0, 2)
+            s.add("free", 0)
+            s.nstr = 0
+        scripts.append(s.lines)
+    for rn, variant in enumerate(["mt_so"] if quick else ["mt_so", "mt_tsan"]):
+        mt_round(ck, rn, variant, ["inject AAAAAAAA", "enable 0"], scripts)
     ck.require_outcomes(["Crypt:-", "Load:0", "DecodeX:0"])
     ck.assumptions += ["passwords are decided for NFKD forms shorter than the phrase buffer (by the API's own types); longer ones are cut, "
                        "which the specification models explicitly (AsciiCut / the normaliser's bound)",
@@ -1379,7 +1431,7 @@ def random_walk(rng, length, faults=False, inject=True, name="walk"):
     s = Script()
     H = 6
     have_str, have_buf = [], []
-    pws = [b"pw", b"", "pässwörd".encode(), codec.nfd("pässwörd".encode()), b"correct horse battery staple"]
+    pws = [b"pw", b"", "pässwörd".encode(), codec.nfd("pässwörd".encode()), b"correct horse battery staple", b"PIN-2024-XYZ", b"Correct Horse Battery Staple"]
     live = []          # registers that (probably) hold a seed
     cur_mask = [rng.choice([7, 7, 5, 0])]
     s.add("enable", cur_mask[0])
